@@ -115,26 +115,26 @@ TABLE = {
 
 # sentences appended to the level text: rules added after the seeded campaign of round 3 (DESIGN.md §8.1)
 EXTRA = {
-    'C01': 'Reader-shape rules with positive controls: no read guarded by the value of another attribute, multi-valued members only grow while parsing, the text-to-integer conversion is as wide as the member it fills. Round-4 rules: attributes are written before any content of their element (typestate over QXmlStreamWriter calls with helper summaries); readers store text as read (no trimmed/toLower between DOM and member); a parsed child is kept or dropped by emptiness only; a local list collecting read values is not de-duplicated or reordered.',
-    'C02': 'A DOM loop advances only through a value that moves (loop heads of short-circuit conditions included); a table indexed by an enum value covers every enumerator the index can hold. First elements are taken only of non-empty lists; a listener object completes only moved-out promises when a continuation replaces the listener variant that owns it.',
-    'C03': 'processData never discards accumulated text after a failed parse or by size; the backward scan of a hand-written UTF-8 boundary can inspect the last three bytes (trip bound), also when it lives in a helper. Not-yet-parsed text is never rewritten in place; no receiver restructures (removeChild / appendChild / clear) a DOM node it was handed (positive control).',
+    'C01': 'Reader-shape rules with positive controls: no read guarded by the value of another attribute, multi-valued members only grow while parsing, the text-to-integer conversion is as wide as the member it fills. Round-4 rules: attributes are written before any content of their element (typestate over QXmlStreamWriter calls with helper summaries); readers store text as read (no trimmed/toLower between DOM and member); a parsed child is kept or dropped by emptiness only; a local list collecting read values is not de-duplicated or reordered. Round-5 rules: a record built positionally gets, member by member, the element its writer emits for that member; an optional member is written by engagement, not by value comparison; an unsigned text conversion does not fill a signed member of the same width; the catch-all exclusion of a typed child is not narrower than what the writer emits.',
+    'C02': 'A DOM loop advances only through a value that moves (loop heads of short-circuit conditions included); a table indexed by an enum value covers every enumerator the index can hold. First elements are taken only of non-empty lists; a listener object completes only moved-out promises when a continuation replaces the listener variant that owns it. Saved DOM text is not cut by tag literals; offsets are not formatted through QTime and the largest accepted offset is writable; integers survive the second pass (shared with C01.R11); an element check does not insist on the presence of an attribute its writer may omit.',
+    'C03': 'processData never discards accumulated text after a failed parse or by size; the backward scan of a hand-written UTF-8 boundary can inspect the last three bytes (trip bound), also when it lives in a helper. Not-yet-parsed text is never rewritten in place; no receiver restructures (removeChild / appendChild / clear) a DOM node it was handed (positive control). A helper that counts held-back bytes does not return bool; a whitespace keep-alive read alone is not an unclaimed element; the closing tag is reported only while the connection it was read from is still open.',
     'C04': 'No negotiation manager of an earlier connection is listening when a new stream starts (shared with C10.R4).',
     'C05': 'The list handed to the chooser is the offered list, only ever extended. A failed SASL outcome ends in the error report: no other authentication is started behind a mechanism mismatch.',
-    'C06': 'No credential-derived text is assembled with chained QString::arg() (positive control). Configuration members handed to the SASL client are stored verbatim (no case folding / trimming); <success/> with data the mechanism merely accepts is refused while the mechanism is incomplete.',
-    'C07': 'A table entry is erased and then completed (never completed while still in the table); a deliberate disconnect tells the stream manager before the socket closes, so the session-end handler cancels the outstanding requests (shared with C10.R5).',
-    'C13': 'Every QXmppPromise<T> with non-void T hands the shared record a deleter for T (all instantiations in the build plus instantiation witnesses for bool, int, enum, pointer, empty struct, QString).',
-    'C14': 'The HMAC key preparation hashes exactly the keys longer than the block (boundary decided at size == B); decode stores text attributes as read.',
-    'C08': 'Consumers ahead of the extension pipeline never claim a get/set; a slot that answers a stored request is one-shot. The shared element predicate and the typed request helper both select the first child element.',
-    'C09': 'The loops that re-register / resend unacknowledged stanzas have no early exit.',
-    'C10': 'A deliberate disconnect tells the stream manager before the socket closes (effect order through helpers); every timer the connection code starts is stopped on the connection-lost path. Receive state of the socket is cleared in both restart slots (shared with C03.R2); what the disconnect handler branches on is written before the socket is closed; the stream is resumable only when the received <enabled/> granted it.',
-    'C11': 'The own address the sender is compared with is computed from the current user/domain, or its cache is invalidated by every writer of them. (generalised: any member jidBare() answers from besides user and domain follows every writer of them).',
-    'C12': 'Every pushed item that is not a removal is stored on every path of the loop body. After resource binding user and domain are set from the bound address; the cache is addressed by the received bare JID on every side (no one-sided case folding).',
+    'C06': 'No credential-derived text is assembled with chained QString::arg() (positive control). Configuration members handed to the SASL client are stored verbatim (no case folding / trimming); <success/> with data the mechanism merely accepts is refused while the mechanism is incomplete. isComplete() of SCRAM is the flag set behind the matching signature; a name table indexed by an enum agrees with it index by index.',
+    'C07': 'A table entry is erased and then completed (never completed while still in the table); a deliberate disconnect tells the stream manager before the socket closes, so the session-end handler cancels the outstanding requests (shared with C10.R5). The session-begin member the IQ table tests is, by position, the one filled from the stream manager\'s resumed state.',
+    'C13': 'Every QXmppPromise<T> with non-void T hands the shared record a deleter for T (all instantiations in the build plus instantiation witnesses for bool, int, enum, pointer, empty struct, QString). Connection bookkeeping members of the shared record are tolerated; their writers are still confined (R7).',
+    'C14': 'The HMAC key preparation hashes exactly the keys longer than the block (boundary decided at size == B); decode stores text attributes as read. A hash object gets no data after result() without reset() (through helpers); attribute-type numbers are pairwise distinct.',
+    'C08': 'Consumers ahead of the extension pipeline never claim a get/set; a slot that answers a stored request is one-shot. The shared element predicate and the typed request helper both select the first child element. The retry driver that answers a stored offer answers or arms the next attempt on every path.',
+    'C09': 'The loops that re-register / resend unacknowledged stanzas have no early exit. Counters restart on every path of the reset branch; the unacknowledged stanzas live in an ordered map.',
+    'C10': 'A deliberate disconnect tells the stream manager before the socket closes (effect order through helpers); every timer the connection code starts is stopped on the connection-lost path. Receive state of the socket is cleared in both restart slots (shared with C03.R2); what the disconnect handler branches on is written before the socket is closed; the stream is resumable only when the received <enabled/> granted it. The session-begin record is wired to the resumed state (shared with C07.R7); the resumption address is offered only while the stream is resumable; an established session is closed before a redirect is followed.',
+    'C11': 'The own address the sender is compared with is computed from the current user/domain, or its cache is invalidated by every writer of them. (generalised: any member jidBare() answers from besides user and domain follows every writer of them). injectMessage does not move the message into a by-value parameter before presenting it.',
+    'C12': 'Every pushed item that is not a removal is stored on every path of the loop body. After resource binding user and domain are set from the bound address; the cache is addressed by the received bare JID on every side (no one-sided case folding). The roster result is delivered directly, not through the event loop.',
     'C15': 'The keyed-decode verdict is followed through a decode helper; every datagram is decoded into a fresh message object. The capacity offered to readDatagram is the pending datagram size; the periodic check timer is stopped only behind a nominated pair or in the teardown.',
-    'C16': 'On the asynchronous edge the identity is the user name stored with the request, answers that arrive after their exchange ended are ignored, and a dropped SASL 2 request ends the exchange. XmppSocket::disconnectFromHost closes the attached socket on every path unless every refusing edge of the server discards the SASL exchange itself.',
-    'C17': 'With an encryption extension installed no message given to sendSensitive takes the plain path. An element predicate that routes a child into a sensitive field insists on nothing its class\'s writer emits only conditionally (evaluated per enumerator where the predicate exempts one).',
-    'C18': 'The decision code is evaluated per sender-key trust level; a held-back decision is identified by key id, owner and sender key in the storage. The sender key\'s level comes from the storage only (no level constant in trustLevel()); within one message distrust runs in the continuation of authenticate.',
-    'C19': 'The (sender, session id) lookup returns a job only where both were compared; after an error reply the first terminate() (helpers included) is an error. A destination file the job opens starts empty (write-only or Truncate); the file hash is stored in the description before the offer is made.',
-    'C20': 'The disco#info serialiser writes every identity and feature the hash covers; what is sent is the stored presence whose hash was recomputed. The hashed form is the received form (data-form parser keeps every value, unconverted); no signal is emitted between recomputing the hash and sending the presence.',
+    'C16': 'On the asynchronous edge the identity is the user name stored with the request, answers that arrive after their exchange ended are ignored, and a dropped SASL 2 request ends the exchange. XmppSocket::disconnectFromHost closes the attached socket on every path unless every refusing edge of the server discards the SASL exchange itself. Every call on the password checker is a virtual dispatch.',
+    'C17': 'With an encryption extension installed no message given to sendSensitive takes the plain path. An element predicate that routes a child into a sensitive field insists on nothing its class\'s writer emits only conditionally (evaluated per enumerator where the predicate exempts one). A recognised sensitive element is consumed on every path of its arm (never handed to the unknown extensions).',
+    'C18': 'The decision code is evaluated per sender-key trust level; a held-back decision is identified by key id, owner and sender key in the storage. The sender key\'s level comes from the storage only (no level constant in trustLevel()); within one message distrust runs in the continuation of authenticate. No object state in function-local statics of the trust managers; postponed decisions are fired with the parameter\'s own key list.',
+    'C19': 'The (sender, session id) lookup returns a job only where both were compared; after an error reply the first terminate() (helpers included) is an error. A destination file the job opens starts empty (write-only or Truncate); the file hash is stored in the description before the offer is made. Byte count, block counter and running hash only move forward during a job\'s life.',
+    'C20': 'The disco#info serialiser writes every identity and feature the hash covers; what is sent is the stored presence whose hash was recomputed. The hashed form is the received form (data-form parser keeps every value, unconverted); no signal is emitted between recomputing the hash and sending the presence. findExtension<T>() returns the first match in list order (the manager that is hashed is the one that answers).',
 }
 
 NOT_APPLICABLE_REASON = 'check not built yet in this session (see DESIGN.md); listed here until qxverif/rules/<id>.py exists'
